@@ -101,7 +101,7 @@ def hOpen (fr : Frag P) (s : St P) : Res P :=
     if fr.path ∈ l then (s, some .alreadyWritten) else
     match tick σ (.open_ fr.path) { s with txn := some (l ++ [fr.path]) } with
     | (s2, some f) =>
-      (if f.eff && !fr.nodir then { s2 with fs := fsSet s2.fs (tmp fr.path) [] } else s2, some f.err)
+      ({ s2 with fs := if f.eff && !fr.nodir then fsSet s2.fs (tmp fr.path) [] else s2.fs }, some f.err)
     | (s2, none) =>
       if fr.nodir then (s2, some (.os 2))
       else ({ s2 with fs := fsSet s2.fs (tmp fr.path) [] }, none)
@@ -110,8 +110,8 @@ def hOpen (fr : Frag P) (s : St P) : Res P :=
 def hWrite (p : P) (data : Bytes) (s : St P) : Res P :=
   match tick σ (.write p) s with
   | (s2, some f) =>
-    (if f.eff then { s2 with fs := fsSet s2.fs (tmp p) ((s2.fs (tmp p)).getD [] ++ data.take (data.length / 2)) }
-     else s2, some f.err)
+    ({ s2 with fs := if f.eff then fsSet s2.fs (tmp p) ((s2.fs (tmp p)).getD [] ++ data.take (data.length / 2))
+                     else s2.fs }, some f.err)
   | (s2, none) => ({ s2 with fs := fsSet s2.fs (tmp p) ((s2.fs (tmp p)).getD [] ++ data) }, none)
 
 /-- `f.close()` at the end of the `with` block -/
@@ -163,7 +163,7 @@ def commit : List P → St P → Res P
     | (s1, none) =>
       match s1.fs (tmp p) with
       | none => (s1, some (.os 2))
-      | some c => commit ps { s1 with fs := fsMove s1.fs (tmp p) p c, txn := s1.txn.map (·.erase p) }
+      | some c => commit ps { s1 with fs := fsMove s1.fs (tmp p) p c, txn := s1.txn.map (·.filter (· ≠ p)) }
 
 /-- the `finally` branch: `unlink(missing_ok=True)` each pending temp file; an `OSError` is logged
 and swallowed, anything else propagates out of the loop -/
@@ -194,6 +194,32 @@ def save (pre : Option Err) (dry : Bool) (frags : List (Frag P)) (s : St P) : Re
   match pre with
   | some e => (s, some e)
   | none => transaction tmp ord σ dry (frags.map Op.frag) s
+
+/-! ### the pinned code before the repair (kept so that a reverted repair is recognisable by name) -/
+
+/-- the former `finally` loop: one pass that unlinks (abort / dry run) or replaces (commit), stops at
+the first exception, and resets the transaction only if it got through -/
+def finishOld (dry : Bool) : List P → St P → Res P
+  | [], s => ({ s with txn := none }, none)
+  | p :: ps, s =>
+    match tick σ (if dry then Ev.unlink p else Ev.rename p) s with
+    | (s1, some f) => (s1, some f.err)
+    | (s1, none) =>
+      match s1.fs (tmp p) with
+      | none => (s1, some (.os 2))   -- FileNotFoundError from `unlink()` / `replace()`
+      | some c =>
+        finishOld dry ps { s1 with fs := if dry then fsDel s1.fs (tmp p) else fsMove s1.fs (tmp p) p c }
+
+/-- `write_transaction` as it was: `except: dry_run = True; raise` / `finally: <loop>; txn = None` -/
+def transactionOld (dry : Bool) (body : List (Op P)) (s : St P) : Res P :=
+  match s.txn with
+  | some _ => (s, some .alreadyOpen)
+  | none =>
+    match runBody tmp σ body { s with txn := some [] } with
+    | (s1, e1) =>
+      match finishOld tmp σ (dry || e1.isSome) (ord (s1.txn.getD [])) s1 with
+      | (s2, some e2) => (s2, some e2)
+      | (s2, none) => (s2, e1)
 
 end
 
